@@ -24,22 +24,27 @@ def bbPend (s : State α) (pts : List (α × List α)) : List α :=
 def bbMn (vals : List (List α)) : List α := vals.foldl minL (vals.headD [])
 def bbMx (vals : List (List α)) : List α := vals.foldl maxL (vals.headD [])
 
+/-- the x bounding box of the batch path: the range of the points, extended to the domain -/
+def bbLo (s : State α) (pts : List (α × List α)) : α :=
+  if s.lo < (sortList (bbPend s pts ++ (bbData s pts).map Prod.fst)).headD 0 then s.lo
+  else (sortList (bbPend s pts ++ (bbData s pts).map Prod.fst)).headD 0
+def bbHi (s : State α) (pts : List (α × List α)) : α :=
+  if (sortList (bbPend s pts ++ (bbData s pts).map Prod.fst)).getLastD 0 < s.hi then s.hi
+  else (sortList (bbPend s pts ++ (bbData s pts).map Prod.fst)).getLastD 0
+
 theorem batchBase_eq (s : State α) (pts : List (α × List α)) :
     batchBase s pts =
       { s with data := bbData s pts, pending := bbPend s pts,
                xs := sortList ((bbData s pts).map Prod.fst),
                xsC := sortList (bbPend s pts ++ (bbData s pts).map Prod.fst),
-               bboxX := ((sortList (bbPend s pts ++ (bbData s pts).map Prod.fst)).headD 0,
-                         (sortList (bbPend s pts ++ (bbData s pts).map Prod.fst)).getLastD 0),
+               bboxX := (bbLo s pts, bbHi s pts),
                bboxY := some (bbMn ((bbData s pts).map Prod.snd), bbMx ((bbData s pts).map Prod.snd)),
-               scaleX := (sortList (bbPend s pts ++ (bbData s pts).map Prod.fst)).getLastD 0 -
-                         (sortList (bbPend s pts ++ (bbData s pts).map Prod.fst)).headD 0,
+               scaleX := bbHi s pts - bbLo s pts,
                scaleY := maxOf (List.zipWith (· - ·) (bbMx ((bbData s pts).map Prod.snd))
                            (bbMn ((bbData s pts).map Prod.snd))),
                oldScaleY := maxOf (List.zipWith (· - ·) (bbMx ((bbData s pts).map Prod.snd))
                            (bbMn ((bbData s pts).map Prod.snd))),
-               lossScale := (sortList (bbPend s pts ++ (bbData s pts).map Prod.fst)).getLastD 0 -
-                         (sortList (bbPend s pts ++ (bbData s pts).map Prod.fst)).headD 0,
+               lossScale := bbHi s pts - bbLo s pts,
                losses := [], lossesC := [] } := rfl
 
 /-- fill `losses` for the pairs of evaluated neighbours -/
@@ -136,10 +141,21 @@ theorem bbMx_scale (vals : List (List α)) : bbMx (vals.map (sy cy)) = sy cy (bb
 include hy in
 theorem batchBase_scale (s : State α) (pts : List (α × List α)) :
     batchBase (scaleState cx cy s) (sData cx cy pts) = scaleState cx cy (batchBase s pts) := by
-  rw [batchBase_eq, batchBase_eq, bbData_scale hx, bbPend_scale hx, sData_fst, sData_snd,
+  have hlo : bbLo (scaleState cx cy s) (sData cx cy pts) = cx * bbLo s pts := by
+    unfold bbLo
+    rw [bbData_scale hx, bbPend_scale hx, sData_fst, ← List.map_append, sortList_map (smono hx),
+      headD_map _ (mul_zero cx), scaleState_lo]
+    simp only [smul_lt hx]
+    split <;> rfl
+  have hhi : bbHi (scaleState cx cy s) (sData cx cy pts) = cx * bbHi s pts := by
+    unfold bbHi
+    rw [bbData_scale hx, bbPend_scale hx, sData_fst, ← List.map_append, sortList_map (smono hx),
+      getLastD_map _ (mul_zero cx), scaleState_hi]
+    simp only [smul_lt hx]
+    split <;> rfl
+  rw [batchBase_eq, batchBase_eq, hlo, hhi, bbData_scale hx, bbPend_scale hx, sData_fst, sData_snd,
     ← List.map_append, sortList_map (smono hx), sortList_map (smono hx),
-    headD_map _ (mul_zero cx), getLastD_map _ (mul_zero cx), bbMn_scale hy, bbMx_scale hy,
-    zipSub_scale, maxOf_sy hy, ← mul_sub]
+    bbMn_scale hy, bbMx_scale hy, zipSub_scale, maxOf_sy hy, ← mul_sub]
   rfl
 
 /-! ### filling `losses` -/
